@@ -249,7 +249,25 @@ fn grid_points(a: f64, b: f64) -> Vec<f64> {
     let d = b - a;
     KS.iter().flat_map(|&k| [a - k * d, b + k * d]).collect()
 }
-fn huge_points() -> Vec<f64> { vec![1e17, -1e17, 1e300, -f64::MAX] }
+fn huge_points() -> Vec<f64> {
+    vec![1e17, -1e17, 1e300, -f64::MAX, f64::MAX, -1e300, 1e22, -4.5e15, 9007199254740993.0, -3.3e9, 2.5e12]
+}
+/// Around `Mirror`'s fold: the thresholds `a - d`, `b + d` and their floating-point neighbours (just
+/// folded / just not), whole periods away from either bound (remainder 0, `d`, or one ulp off), and
+/// far points whose remainder is small, about `d`, or just below `2d`.
+fn fold_points(a: f64, b: f64) -> Vec<f64> {
+    let d = b - a;
+    let mut v = vec![];
+    for t in [a - d, b + d] { v.extend([t, next_up(t), next_down(t)]); }
+    for k in [1.0, 2.0, 3.0, 8.0, 1e3, 1e6] {
+        for base in [a, b] { for sgn in [-1.0, 1.0] {
+            let t = base + sgn * 2.0 * k * d;
+            v.extend([t, next_up(t), next_down(t)]);
+        } }
+        for frac in [0.001, 0.999, 1.001, 1.999] { v.extend([a + (2.0 * k + frac) * d, a - (2.0 * k + frac) * d]); }
+    }
+    v
+}
 
 fn bnd_input(op: &str, kind: &str, a: f64, b: f64, seed: u64, sols: &[Vec<f64>]) -> String {
     bnd_input_dom(op, kind, &[(a, b)], seed, sols)
@@ -354,14 +372,26 @@ fn main() {
         }).collect()).collect();
         emit(&mut runner, bnd_input_dom(op, if kind == "inside" { "random" } else { kind }, dom, rng.next() % 100000, &sols));
     }
-    // ---- 3. huge finite coordinates (absorption: 2b − v = −v). Mirror is expected not to return.
-    for (i, &(lo, hi)) in DOMAINS.iter().enumerate() {
+    // ---- 3. huge finite coordinates and the neighbourhood of Mirror's fold: ordinary cases — every operator
+    //         must return, in bounds (for `|x| >> width` step-by-step reflection would not: `b - (v - b)` rounds to `-v`)
+    for &(lo, hi) in &DOMAINS {
         for op in OPS {
-            let pts = huge_points();
-            let take = if op == "mir" { if a.thorough { 3 } else if i < 2 { 2 } else { 0 } } else { pts.len() };
-            for &x in pts.iter().take(take) {
-                emit(&mut runner, bnd_input(op, "huge", lo, hi, a.seed, &[vec![x]]));
+            let seeds = if op == "otn" { 2 } else { 1 };
+            for (kind, pts) in [("huge", huge_points()), ("fold", fold_points(lo, hi))] {
+                for &x in &pts { for s in 0..seeds {
+                    emit(&mut runner, bnd_input(op, kind, lo, hi, a.seed * 1000 + s, &[vec![x]]));
+                } }
             }
+        }
+    }
+    // the same inside populations over per-dimension different ranges (each coordinate folded with ITS range)
+    for (it, dom) in mixed_domains().iter().enumerate() {
+        for op in OPS {
+            let hp = huge_points();
+            let sols: Vec<Vec<f64>> = (0..3).map(|i| dom.iter().enumerate().map(|(j, &(lo, hi))| {
+                if (i + j) % 2 == 0 { hp[(it + 3 * i + j) % hp.len()] } else { let f = fold_points(lo, hi); f[(7 * it + 5 * i + j) % f.len()] }
+            }).collect()).collect();
+            emit(&mut runner, bnd_input_dom(op, "huge", dom, a.seed, &sols));
         }
     }
     // ---- 4. initialisers: sizes 0..6, dimensions 1..6 (and 0), domains, stack heights, seeds
